@@ -13,7 +13,7 @@ VERIF = os.path.dirname(os.path.dirname(os.path.abspath(__file__)))
 WORK = os.environ.get('VERIF_WORK', os.path.join(VERIF, 'work'))
 BG = os.path.join(REPO, 'bindgen')
 JOBS = int(os.environ.get('VERIF_JOBS', '14'))
-MEM_KB = int(os.environ.get('VERIF_MEM_KB', str(20 * 1024 * 1024)))
+MEM_KB = int(os.environ.get('VERIF_MEM_KB', str(36 * 1024 * 1024)))
 
 ENV = dict(os.environ)
 ENV['CARGO_NET_OFFLINE'] = 'true'
@@ -357,7 +357,7 @@ def sh(cmd, cwd, timeout, log=None):
     return rc, out, dt
 
 
-def run_harness(croot, h, logdir, playback=False):
+def run_harness(croot, h, logdir, playback=False, kname=''):
     """One `cargo kani --harness` run in its own target dir."""
     tdir = os.path.join(croot, 'target_' + h.name)
     args = ['cargo', 'kani', '--harness', h.path or ('proofs::' + h.name), '--exact', '--target-dir', tdir]
@@ -371,7 +371,7 @@ def run_harness(croot, h, logdir, playback=False):
     try:
         for attempt in range(5):
             rc, out, dt = sh(' '.join(args), croot, h.timeout,
-                             log=os.path.join(logdir, h.name + ('.playback' if playback else '') + '.log'))
+                             log=os.path.join(logdir, kname + h.name + ('.playback' if playback else '') + '.log'))
             # sandbox flakiness seen under load: cargo's `rustc -` target probe reads garbage on stdin; retry
             if 'to learn about target-specific information' in out or 'Failed to get cargo metadata' in out:
                 shutil.rmtree(tdir, ignore_errors=True)
@@ -402,6 +402,14 @@ def native_replay(croot, h, logdir):
                 continue
             t = t.replace('let concrete_vals: Vec<Vec<u8>> = vec![', 'let concrete_vals: ::std::vec::Vec<::std::vec::Vec<u8>> = ::std::vec![')
             t = re.sub(r'^(\s*)vec!\[([0-9, ]*)\](,?)\s*$', r'\1::std::vec![\2]\3', t, flags=re.M)
+            # Kani emits the same test twice when two failing checks share one counterexample: keep the first
+            seen = set()
+            def dedupe(m):
+                if m.group(1) in seen:
+                    return ''
+                seen.add(m.group(1))
+                return m.group(0)
+            t = re.sub(r'#\[test\]\s*fn (kani_concrete_playback_\w+)\(\) \{.*?kani::concrete_playback_run\([^;]*;\s*\}', dedupe, t, flags=re.S)
             open(p, 'w').write(t)
     profiles = {
         'dev': {},
@@ -488,7 +496,7 @@ def run_property(prop, tier, seed, kernels, level_text, outside, explanation):
 
     def work(job):
         k, croot, h = job
-        r, out = run_harness(croot, h, logdir)
+        r, out = run_harness(croot, h, logdir, kname=k.name + '__')
         return job, r
 
     with ThreadPoolExecutor(max_workers=max(JOBS, 1) * 2) as ex:
@@ -517,7 +525,7 @@ def run_property(prop, tier, seed, kernels, level_text, outside, explanation):
         if r['compile_error']:
             if k.name not in compile_failed:
                 compile_failed.add(k.name)
-                print('INCONCLUSIVE kernel=%s reason=slice-does-not-compile (see %s)' % (k.name, os.path.join(logdir, h.name + '.log')))
+                print('INCONCLUSIVE kernel=%s reason=slice-does-not-compile (see %s)' % (k.name, os.path.join(logdir, k.name + '__' + h.name + '.log')))
                 inconclusive.append({'kernel': k.name, 'reason': 'slice-does-not-compile'})
             rec['outcome'] = 'inconclusive'
             continue
@@ -572,7 +580,7 @@ def run_property(prop, tier, seed, kernels, level_text, outside, explanation):
             # not listed any more: treat as an ordinary failure
         # candidate violation -> concrete playback -> native replay
         rec['failed'] = real_fail[:5]
-        r2, out2 = run_harness(croot, h, logdir, playback=True)
+        r2, out2 = run_harness(croot, h, logdir, playback=True, kname=k.name + '__')
         rep = native_replay(croot, h, logdir) if 'kani_concrete_playback' in out2 else {}
         rec['replay'] = rep
         rdir = os.path.join(wroot, 'replay_' + h.name)
@@ -625,8 +633,9 @@ def run_property(prop, tier, seed, kernels, level_text, outside, explanation):
         'wall_s': round(wall, 1),
         'violations': len(violations),
     }
-    os.makedirs(os.path.join(VERIF, 'evidence'), exist_ok=True)
-    json.dump(ev, open(os.path.join(VERIF, 'evidence', prop + '.json'), 'w'), indent=1)
+    evdir = os.environ.get('VERIF_EVIDENCE_DIR', os.path.join(VERIF, 'evidence'))
+    os.makedirs(evdir, exist_ok=True)
+    json.dump(ev, open(os.path.join(evdir, prop + '.json'), 'w'), indent=1)
     print('SUMMARY property=%s tier=%s harnesses=%d held=%d obligations=%d discharged=%d inconclusive=%d known=%d violations=%d wall=%.0fs solver=%.0fs' % (
         prop, tier, len(results), sum(1 for p in per_h if p.get('outcome') == 'held'), obligations, discharged,
         len(inconclusive), len(known_lines), len(violations), wall, solver_s))
